@@ -1,8 +1,27 @@
-import Karp.Driver.Proto
+import Karp.Driver.ScenarioJson
+import Karp.Spec.InterPod
 
 namespace Karp.Driver.C02
-open Lean Karp.Driver
+open Lean Karp.Driver Karp.Driver.ScenarioJson Karp.Scn
 
-def handle : Handler := fun op _ _ => .error s!"unknown op {op}"
+/-- `c02.pass`: judge the end state of a real scheduling pass by the inter-pod specification -/
+def opPass (inp impl : Json) : Except String Resp := do
+  let s ← scenario inp
+  match fldOpt impl "err" with
+  | some (.str e) => if e != "" then return { allowed := some true, spec := some true, why := "pass returned an error: " ++ e } else pure ()
+  | _ => pure ()
+  if (fldOpt impl "panic").isSome then
+    return { allowed := some false, spec := some false, why := "the scheduler panicked" }
+  let out ← outcome impl
+  match Karp.Spec.InterPod.outcomeOK s out with
+  | none => pure { allowed := some true, spec := some true }
+  | some why =>
+    let sig := (why.splitOn ":").head!
+    pure { allowed := some true, spec := some false, why := why, extra := some (jObj [("signature", jStr sig)]) }
+
+def handle : Handler := fun op inp impl =>
+  match op with
+  | "c02.pass" => opPass inp impl
+  | _ => .error s!"unknown op {op}"
 
 end Karp.Driver.C02
